@@ -990,7 +990,7 @@ pub fn gen_c12(rng: &mut Rng) -> Value {
     let vals = mk_vals(rng, 3, big);
     let mut steps = Vec::new();
     let n = rng.range(3, 12);
-    for i in 0..n {
+    for _i in 0..n {
         let ki = rng.idx(nk + 1);
         let vi = rng.idx(3);
         let len = vlen(&vals, vi);
